@@ -120,4 +120,19 @@ CLAIMED["C04"] = {
     "text": PARTIAL + "the LZMA2 writer emits the end byte exactly when read() returned 0 (short reads continue), chunks are control 1, big-endian n-1 (fits: buffer <= 65536) and buf[..n], and reads again afterwards; the multi-byte writer partitions on value >= 0x80 with bytes 0x80|(v&0x7F) / v and carries v >> 7 (inverse of C03.R2); the XZ block header written is 4*(size byte+1) bytes with one accepted filter id, one property byte and zero padding; writer paddings are (-count) mod 4 zero bytes; reader_term(writer_term(s)) = s for the backward size and the index record / footer size come unmodified from the counting adapters; the .lzma header's properties byte decodes to the lc/lp/pb the encoder's own context indices use, the size field is all-ones / caller's value / absent per option, the end marker is written iff the size is declared unknown with the format's 1+1+4+6+30 bits, every Ok finish flushes; range-encoder constants (11-bit probabilities, shift 5 for all 2047 probabilities, top 2^24, 5-byte flush, initial state, carry constants) are the decoder's. Declined (not static): that the range-coded payload round-trips for every input (carry propagation, 2^32-range numerics), interoperability of the payload.",
     "note": "Trusts rustc's MIR; constants in rules/C04.py transcribe the formats; evaluates extracted expression terms (not the program).",
 }
-NOT_APPLICABLE = {p: WIP for p in ["C05","C15"]}
+
+CLAIMED["C05"] = {
+    "engine": "E-CFG/E-TERM",
+    "technique": "static effect analysis of the update-flag family (caller-visible stores and mutable loans control dependent on the flag or forwarding it); provenance terms of staged slices and fill-position updates; finite evaluation of the refill guards; path checks of the dry-run/commit protocol; ADT capacity constants (MIR facts)",
+    "design_ref": "DESIGN.md section 4 / C05",
+    "text": PARTIAL + "a dry run (update = false) stores nothing through caller-visible references and lends none mutably except to its temporary range decoder, in all functions of the symbol decoder reached from process_next_inner, and try_process_next passes false with a decoder over the look-ahead slice; both look-ahead tests use the carry-over capacity 20 and the header staging holds >= 18 bytes; every slice of a staging array handed to a reader ends at its fill position and fill positions move only by fill / first fill at 0 / compaction after copying [consumed, end) to the front / drain after the decoder consumed the bytes; the carry-over buffer is refilled at every fill level below capacity; with < 20 bytes in Partial mode a symbol is committed only after its dry run succeeded and a failed dry run commits nothing and leaves the loop; the range decoder is rebuilt from and saved back to (range, code), the carry-over decoder's state is copied back, staged bytes are decoded before new input and write returns its cursor position. Declined (not static): that 20 bytes always suffice and value-level equality with the one-shot decoder over all chunkings (symbol semantics, range-coder numerics).",
+    "note": "Trusts rustc's MIR; T = 20 transcribes the worst-case symbol (22 coded + 26 direct bits).",
+}
+CLAIMED["C15"] = {
+    "engine": "E-CFG/E-TERM",
+    "technique": "static who-may-emit enumeration with control dependence on the update flag; shared C05 rules (commit protocol, staged-slice provenance, refill guard evaluation); who-reads enumeration and control dependence / must-pass-through of allow_incomplete in Stream::finish (MIR facts)",
+    "design_ref": "DESIGN.md section 4 / C15",
+    "text": PARTIAL + "the window is extended only by append calls of the symbol decoder under update = true (a dry run cannot emit, committed symbols are never revised); symbols are committed only after a successful dry run or with the full look-ahead; readers over staging arrays never see bytes beyond the fill position and staged bytes are neither dropped nor duplicated; the carry-over buffer is refilled whenever it has room (so the decoder lags by at most one symbol's input); allow_incomplete is read only in Stream::finish where it guards only the final end-of-stream process call, and every Ok path of the Data arm passes the window flush. Declined (not static): the 64-byte lag figure and prefix equality at value level.",
+    "note": "Trusts rustc's MIR.",
+}
+NOT_APPLICABLE = {}
